@@ -57,10 +57,14 @@ def normalise_program(trees: Dict[str, ast.Module], pkgs: Set[str]) -> None:
     for m, t in trees.items():
         if not (".tests" in m or m.endswith("tests")):
             _objects_to_closures(t)
+            _text_accumulators(t)
             for _ in range(3):
                 if not _helpers_to_closures(t, trees):
                     break
+            _generators_to_procedures(t)
             _role_names(t)
+            _unroll_table_loops(t)
+            _departialize(t)
     inlined = False
     for _ in range(4):  # helpers calling helpers
         helpers = {m: _collect_helpers(t) for m, t in trees.items()}
@@ -80,11 +84,15 @@ def normalise_program(trees: Dict[str, ast.Module], pkgs: Set[str]) -> None:
     _inline_private_tables(trees)
     for t in trees.values():
         _strip_casts(t)
+        _try_keyerror(t)
+        _chain_loops(t)
+        _fold_sentinels(t)
         _scalarize_records(t)
         _while_true(t)
         _rotate_carried(t)
         _drain_loops(t)
         _clamp_idiom(t)
+        _loop_built_lists(t)
         _next_sentinel(t)
         _return_temp(t)
         ast.fix_missing_locations(t)
@@ -93,6 +101,364 @@ def normalise_program(trees: Dict[str, ast.Module], pkgs: Set[str]) -> None:
 # ---------------------------------------------------------------------------
 
 EXHAUSTED = "__EXHAUSTED__"
+
+
+def _text_accumulators(tree: ast.Module) -> None:
+    """chunks = [] ; chunks.append(s) / chunks.extend(it) ... ; "".join(chunks)      ==>      chunks = StringIO() ; chunks.write(s) /
+    for x in it: chunks.write(x) ... ; chunks.getvalue()
+    (a local list that is only appended / extended to and joined with the empty separator exactly once, at the end): the text is accumulated
+    the way the rest of the package does it.  Needs StringIO to be importable by name in the module."""
+    has_stringio = any(isinstance(st, ast.ImportFrom) and st.module == "io" and any(a.name == "StringIO" and a.asname is None for a in st.names) for st in tree.body)
+    if not has_stringio:
+        return
+    for fn in [n for n in ast.walk(tree) if isinstance(n, ast.FunctionDef)]:
+        own = list(_own_nodes(fn))
+        parents: Dict[int, ast.AST] = {}
+        for n in ast.walk(fn):
+            for c in ast.iter_child_nodes(n):
+                parents[id(c)] = n
+        for st in list(fn.body):
+            tgt = val = None
+            if isinstance(st, ast.Assign) and len(st.targets) == 1 and isinstance(st.targets[0], ast.Name):
+                tgt, val = st.targets[0].id, st.value
+            elif isinstance(st, ast.AnnAssign) and isinstance(st.target, ast.Name) and st.value is not None:
+                tgt, val = st.target.id, st.value
+            if tgt is None or not (isinstance(val, ast.List) and not val.elts):
+                continue
+            if sum(1 for n in ast.walk(fn) if isinstance(n, ast.Name) and n.id == tgt and isinstance(n.ctx, (ast.Store, ast.Del))) != 1:
+                continue
+            uses = [n for n in ast.walk(fn) if isinstance(n, ast.Name) and n.id == tgt and isinstance(n.ctx, ast.Load)]
+            appends, extends, joins = [], [], []
+            ok = bool(uses)
+            for u in uses:
+                par = parents.get(id(u))
+                g = parents.get(id(par)) if par is not None else None
+                if isinstance(par, ast.Attribute) and par.value is u and par.attr in ("append", "extend") and isinstance(g, ast.Call) and g.func is par and len(g.args) == 1 and not g.keywords \
+                        and isinstance(parents.get(id(g)), ast.Expr):
+                    (appends if par.attr == "append" else extends).append((parents[id(g)], g))
+                elif isinstance(par, ast.Call) and isinstance(par.func, ast.Attribute) and par.func.attr == "join" and isinstance(par.func.value, ast.Constant) and par.func.value.value == "" \
+                        and par.args == [u] and not par.keywords:
+                    joins.append(par)
+                else:
+                    ok = False
+                    break
+            if not ok or len(joins) != 1 or not (appends or extends):
+                continue
+            # the join must come after every append in program order: require it in a top-level statement of the function that follows all of them
+            top_index = {}
+            for i, x in enumerate(fn.body):
+                for n in ast.walk(x):
+                    top_index[id(n)] = i
+            ji = top_index.get(id(joins[0]))
+            if ji is None or any(top_index.get(id(g), 10 ** 9) >= ji for _, g in appends + extends):
+                continue
+            # rewrite
+            new_val = ast.Call(func=ast.Name(id="StringIO", ctx=ast.Load()), args=[], keywords=[])
+            ast.copy_location(new_val, val)
+            if isinstance(st, ast.Assign):
+                st.value = new_val
+            else:
+                idx = fn.body.index(st)
+                fn.body[idx] = ast.copy_location(ast.Assign(targets=[ast.Name(id=tgt, ctx=ast.Store())], value=new_val), st)
+            for stmt, g in appends:
+                g.func.attr = "write"
+            _counter[0] += 1
+            k = 0
+            for stmt, g in extends:
+                k += 1
+                x = f"_piece__inl{_counter[0]}_{k}"
+                w = ast.Expr(value=ast.Call(func=ast.Attribute(value=ast.Name(id=tgt, ctx=ast.Load()), attr="write", ctx=ast.Load()), args=[ast.Name(id=x, ctx=ast.Load())], keywords=[]))
+                loop = ast.For(target=ast.Name(id=x, ctx=ast.Store()), iter=g.args[0], body=[w], orelse=[], type_comment=None)
+                ast.copy_location(loop, stmt)
+                for n in ast.walk(loop):
+                    if not hasattr(n, "lineno") and isinstance(n, (ast.stmt, ast.expr)):
+                        ast.copy_location(n, stmt)
+                # replace stmt in its block
+                for holder in ast.walk(fn):
+                    for fld in ("body", "orelse", "finalbody"):
+                        blk = getattr(holder, fld, None)
+                        if isinstance(blk, list):
+                            for i, y in enumerate(blk):
+                                if y is stmt:
+                                    blk[i] = loop
+            j = joins[0]
+            j.func = ast.Attribute(value=ast.Name(id=tgt, ctx=ast.Load()), attr="getvalue", ctx=ast.Load())
+            j.args = []
+            ast.fix_missing_locations(fn)
+
+
+def _generators_to_procedures(tree: ast.Module) -> None:
+    """A nested generator function g whose every use is `for x in g(..): W.write(x)` with the same plain name W (a local of the enclosing
+    function) becomes a procedure that writes: `yield E` -> `W.write(E)`, the consuming loops -> `g(..)`.  Each value is written as soon as it is
+    produced either way, and the loops run to exhaustion."""
+    for fn in [n for n in ast.walk(tree) if isinstance(n, ast.FunctionDef)]:
+        for g in [x for x in fn.body if isinstance(x, ast.FunctionDef)]:
+            own = list(_own_nodes(g))
+            ys = [n for n in own if isinstance(n, ast.Yield)]
+            if not ys or any(isinstance(n, (ast.YieldFrom, ast.Return)) for n in own) or g.decorator_list:
+                continue
+            ystm = [n for n in own if isinstance(n, ast.Expr) and isinstance(n.value, ast.Yield) and n.value.value is not None]
+            if len(ys) != len(ystm):
+                continue
+            parents: Dict[int, ast.AST] = {}
+            for n in ast.walk(fn):
+                for c in ast.iter_child_nodes(n):
+                    parents[id(c)] = n
+            refs = [n for n in ast.walk(fn) if isinstance(n, ast.Name) and n.id == g.name and isinstance(n.ctx, ast.Load)]
+            loops = []
+            writer = None
+            ok = bool(refs)
+            for r in refs:
+                call = parents.get(id(r))
+                loop = parents.get(id(call)) if call is not None else None
+                if not (isinstance(call, ast.Call) and call.func is r and isinstance(loop, ast.For) and loop.iter is call and not loop.orelse and isinstance(loop.target, ast.Name)
+                        and len(loop.body) == 1 and isinstance(loop.body[0], ast.Expr) and isinstance(loop.body[0].value, ast.Call)):
+                    ok = False
+                    break
+                w = loop.body[0].value
+                if not (isinstance(w.func, ast.Attribute) and w.func.attr == "write" and isinstance(w.func.value, ast.Name) and len(w.args) == 1 and not w.keywords
+                        and isinstance(w.args[0], ast.Name) and w.args[0].id == loop.target.id):
+                    ok = False
+                    break
+                if writer is None:
+                    writer = w.func.value.id
+                elif writer != w.func.value.id:
+                    ok = False
+                    break
+                # a loop inside g itself would be recursion
+                x = loop
+                inside_g = False
+                while id(x) in parents:
+                    x = parents[id(x)]
+                    if x is g:
+                        inside_g = True
+                if inside_g:
+                    ok = False
+                    break
+                loops.append((loop, call))
+            if not ok or writer is None or writer in _params_of(g) or writer in _locals_of(g):
+                continue
+            for y in ystm:
+                y.value = ast.copy_location(ast.Call(func=ast.Attribute(value=ast.Name(id=writer, ctx=ast.Load()), attr="write", ctx=ast.Load()), args=[y.value.value], keywords=[]), y.value)
+            for loop, call in loops:
+                stmt = ast.copy_location(ast.Expr(value=call), loop)
+                for holder in ast.walk(fn):
+                    for fld in ("body", "orelse", "finalbody"):
+                        blk = getattr(holder, fld, None)
+                        if isinstance(blk, list):
+                            for i, x in enumerate(blk):
+                                if x is loop:
+                                    blk[i] = stmt
+            ast.fix_missing_locations(fn)
+
+
+def _departialize(tree: ast.Module) -> None:
+    """p = functools.partial(F, a, k=v) ; ... p(x, y) ...   ==>   p__0 = a ; p__k = v ; ... F(p__0, x, y, k=p__k) ...
+    (p bound once, used only as the callee of calls that do not repeat one of the bound keywords): the bound arguments are still evaluated once,
+    where the partial was created."""
+    partial_names = set()
+    for st in tree.body:
+        if isinstance(st, ast.ImportFrom) and st.module == "functools":
+            for a in st.names:
+                if a.name == "partial":
+                    partial_names.add(a.asname or "partial")
+    for fn in [n for n in ast.walk(tree) if isinstance(n, ast.FunctionDef)]:
+        own = list(_own_nodes(fn))
+        stores: Dict[str, int] = {}
+        for n in ast.walk(fn):
+            if isinstance(n, ast.Name) and isinstance(n.ctx, (ast.Store, ast.Del)):
+                stores[n.id] = stores.get(n.id, 0) + 1
+        parents: Dict[int, ast.AST] = {}
+        for n in ast.walk(fn):
+            for c in ast.iter_child_nodes(n):
+                parents[id(c)] = n
+        for holder in ast.walk(fn):
+            for fld in ("body", "orelse", "finalbody"):
+                body = getattr(holder, fld, None)
+                if not (isinstance(body, list) and body and isinstance(body[0], ast.stmt)):
+                    continue
+                i = 0
+                while i < len(body):
+                    st = body[i]
+                    i += 1
+                    if not (isinstance(st, ast.Assign) and len(st.targets) == 1 and isinstance(st.targets[0], ast.Name) and isinstance(st.value, ast.Call)):
+                        continue
+                    f = st.value.func
+                    is_partial = (isinstance(f, ast.Name) and f.id in partial_names) or (isinstance(f, ast.Attribute) and f.attr == "partial" and isinstance(f.value, ast.Name) and f.value.id == "functools")
+                    if not is_partial or not st.value.args or any(isinstance(a, ast.Starred) for a in st.value.args) or any(k.arg is None for k in st.value.keywords):
+                        continue
+                    p = st.targets[0].id
+                    if stores.get(p, 0) != 1 or p in _params_of(fn) or not isinstance(st.value.args[0], (ast.Name, ast.Attribute)):
+                        continue
+                    uses = [n for n in ast.walk(fn) if isinstance(n, ast.Name) and n.id == p and isinstance(n.ctx, ast.Load)]
+                    calls_ = []
+                    ok = bool(uses)
+                    bound_kw = {k.arg for k in st.value.keywords}
+                    for u in uses:
+                        par = parents.get(id(u))
+                        if not (isinstance(par, ast.Call) and par.func is u) or any(isinstance(a, ast.Starred) for a in par.args) or any(k.arg is None or k.arg in bound_kw for k in par.keywords):
+                            ok = False
+                            break
+                        calls_.append(par)
+                    if not ok:
+                        continue
+                    pre: List[ast.stmt] = []
+                    pos: List[ast.expr] = []
+                    kws: List[ast.keyword] = []
+                    for j, a in enumerate(st.value.args[1:]):
+                        if _simple(a) and not (isinstance(a, ast.Name) and stores.get(a.id, 0) > 1):
+                            pos.append(a)
+                        else:
+                            tmp = f"{p}__{j}"
+                            pre.append(ast.copy_location(ast.Assign(targets=[ast.Name(id=tmp, ctx=ast.Store())], value=a), st))
+                            pos.append(ast.Name(id=tmp, ctx=ast.Load()))
+                    for k in st.value.keywords:
+                        if _simple(k.value) and not (isinstance(k.value, ast.Name) and stores.get(k.value.id, 0) > 1):
+                            kws.append(ast.keyword(arg=k.arg, value=k.value))
+                        else:
+                            tmp = f"{p}__{k.arg}"
+                            pre.append(ast.copy_location(ast.Assign(targets=[ast.Name(id=tmp, ctx=ast.Store())], value=k.value), st))
+                            kws.append(ast.keyword(arg=k.arg, value=ast.Name(id=tmp, ctx=ast.Load())))
+                    for c in calls_:
+                        c.func = copy.deepcopy(st.value.args[0])
+                        c.args = [copy.deepcopy(x) for x in pos] + list(c.args)
+                        c.keywords = [copy.deepcopy(x) for x in kws] + list(c.keywords)
+                    for x in pre:
+                        ast.fix_missing_locations(x)
+                    body[i - 1:i] = pre or [ast.copy_location(ast.Pass(), st)]
+                    i += len(pre) - 1 if pre else 0
+                    ast.fix_missing_locations(fn)
+
+
+def _unroll_table_loops(tree: ast.Module) -> None:
+    """for a, b, c in _TABLE: BODY   with _TABLE a private module-level tuple of a few tuples of names / constants (a dispatch table of classes,
+    functions, strings), no break / else in the loop, the targets not re-assigned: one copy of BODY per row with the row's entries substituted,
+    each copy in a Once block where `continue` is `break`.  The table-driven loop is then the if-chain it stands for."""
+    tables: Dict[str, ast.AST] = {}
+    counts: Dict[str, int] = {}
+    for st in tree.body:
+        if isinstance(st, ast.Assign) and len(st.targets) == 1 and isinstance(st.targets[0], ast.Name):
+            nm, val = st.targets[0].id, st.value
+        elif isinstance(st, ast.AnnAssign) and isinstance(st.target, ast.Name) and st.value is not None:
+            nm, val = st.target.id, st.value
+        else:
+            continue
+        counts[nm] = counts.get(nm, 0) + 1
+        if nm.startswith("_") and not nm.startswith("__") and isinstance(val, ast.Tuple) and 1 <= len(val.elts) <= 6:
+            rows = val.elts
+            if all(isinstance(r, ast.Tuple) and r.elts and all(isinstance(x, (ast.Name, ast.Constant, ast.Attribute)) for x in r.elts) for r in rows) and len({len(r.elts) for r in rows}) == 1:
+                tables[nm] = val
+    tables = {k: v for k, v in tables.items() if counts.get(k) == 1}
+    # tables that are locals of a function (bound once at its top level, possibly read by a closure of that function)
+    for fn0 in [n for n in ast.walk(tree) if isinstance(n, ast.FunctionDef)]:
+        for st in fn0.body:
+            if isinstance(st, ast.Assign) and len(st.targets) == 1 and isinstance(st.targets[0], ast.Name):
+                nm, val = st.targets[0].id, st.value
+            elif isinstance(st, ast.AnnAssign) and isinstance(st.target, ast.Name) and st.value is not None:
+                nm, val = st.target.id, st.value
+            else:
+                continue
+            if nm in tables or not (isinstance(val, ast.Tuple) and 1 <= len(val.elts) <= 6):
+                continue
+            rows = val.elts
+            if not (all(isinstance(r, ast.Tuple) and r.elts and all(isinstance(x, (ast.Name, ast.Constant, ast.Attribute)) for x in r.elts) for r in rows) and len({len(r.elts) for r in rows}) == 1):
+                continue
+            if sum(1 for n in ast.walk(tree) if isinstance(n, ast.Name) and n.id == nm and isinstance(n.ctx, (ast.Store, ast.Del))) != 1:
+                continue
+            # the names in the table must mean the same thing where the loop is: nested functions / never re-bound names of fn0
+            names_in = {x.id for r in rows for x in r.elts if isinstance(x, ast.Name)}
+            rebound = {n.id for n in ast.walk(fn0) if isinstance(n, ast.Name) and isinstance(n.ctx, (ast.Store, ast.Del)) and n.id in names_in}
+            if rebound:
+                continue
+            tables[nm] = val
+    # the table must be used only as the iterable of such loops
+    uses: Dict[str, int] = {}
+    for n in ast.walk(tree):
+        if isinstance(n, ast.Name) and n.id in tables and isinstance(n.ctx, ast.Load):
+            uses[n.id] = uses.get(n.id, 0) + 1
+
+    def continues_to_breaks(stmts: List[ast.stmt]) -> Optional[List[ast.stmt]]:
+        out = []
+        for x in stmts:
+            if isinstance(x, ast.Continue):
+                b_ = ast.copy_location(ast.Break(), x)
+                b_._once_exit = True
+                out.append(b_)
+                continue
+            if isinstance(x, ast.Break):
+                return None
+            if isinstance(x, (ast.For, ast.AsyncFor, ast.While)):
+                if any(isinstance(n, (ast.Break, ast.Continue)) for y in x.orelse for n in ast.walk(y)):
+                    return None
+                out.append(x)
+                continue
+            if isinstance(x, (ast.FunctionDef, ast.AsyncFunctionDef, ast.ClassDef)) or isinstance(x, Once):
+                if isinstance(x, Once):
+                    return None
+                out.append(x)
+                continue
+            new = copy.copy(x)
+            for fld in ("body", "orelse", "finalbody"):
+                sub = getattr(x, fld, None)
+                if isinstance(sub, list) and sub and isinstance(sub[0], ast.stmt):
+                    r = continues_to_breaks(sub)
+                    if r is None:
+                        return None
+                    setattr(new, fld, r)
+            if getattr(x, "handlers", None):
+                hs = []
+                for h in x.handlers:
+                    r = continues_to_breaks(h.body)
+                    if r is None:
+                        return None
+                    h2 = copy.copy(h)
+                    h2.body = r
+                    hs.append(h2)
+                new.handlers = hs
+            out.append(new)
+        return out
+
+    for fn in [n for n in ast.walk(tree) if isinstance(n, ast.FunctionDef)]:
+        for holder in ast.walk(fn):
+            for fld in ("body", "orelse", "finalbody"):
+                body = getattr(holder, fld, None)
+                if not (isinstance(body, list) and body and isinstance(body[0], ast.stmt)):
+                    continue
+                new_body: List[ast.stmt] = []
+                changed = False
+                for st in body:
+                    literal_rows = None
+                    if isinstance(st, ast.For) and isinstance(st.iter, (ast.Tuple, ast.List)) and 1 <= len(st.iter.elts) <= 6 and all(
+                            isinstance(r, ast.Tuple) and r.elts and all(isinstance(x, (ast.Name, ast.Constant, ast.Attribute)) for x in r.elts) for r in st.iter.elts) \
+                            and len({len(r.elts) for r in st.iter.elts}) == 1:
+                        # the table is written in the loop header itself; attribute reads in it are read once per row either way
+                        literal_rows = st.iter.elts
+                    if not (isinstance(st, ast.For) and ((isinstance(st.iter, ast.Name) and st.iter.id in tables and uses.get(st.iter.id) == 1) or literal_rows is not None) and not st.orelse
+                            and isinstance(st.target, ast.Tuple) and all(isinstance(x, ast.Name) for x in st.target.elts)):
+                        new_body.append(st)
+                        continue
+                    rows = literal_rows if literal_rows is not None else tables[st.iter.id].elts
+                    tnames = [x.id for x in st.target.elts]
+                    if len(tnames) != len(rows[0].elts) or any(isinstance(n, ast.Name) and n.id in tnames and isinstance(n.ctx, (ast.Store, ast.Del)) for x in st.body for n in ast.walk(x)):
+                        new_body.append(st)
+                        continue
+                    # the loop variables must not be read after the loop
+                    conv = continues_to_breaks(st.body)
+                    if conv is None:
+                        new_body.append(st)
+                        continue
+                    for r in rows:
+                        mapping = dict(zip(tnames, r.elts))
+                        blk = [_Subst(mapping, {}).visit(copy.deepcopy(x)) for x in conv]
+                        o = Once(body=blk or [ast.Pass()])
+                        ast.copy_location(o, st)
+                        for x in ast.walk(o):
+                            if isinstance(x, (ast.stmt, ast.expr)) and not hasattr(x, "lineno"):
+                                ast.copy_location(x, st)
+                        new_body.append(o)
+                    changed = True
+                if changed:
+                    setattr(holder, fld, new_body)
 
 
 ROLE_ANCHORS = [
@@ -199,15 +565,13 @@ def _helpers_to_closures(tree: ast.Module, trees: Dict[str, ast.Module]) -> bool
                 a = c.args[i] if i < len(c.args) else next((k.value for k in c.keywords if k.arg == q), None)
                 args.append(a)
             if any(a is None or not isinstance(a, ast.Name) for a in args) or len({a.id for a in args}) != 1:
-                break  # only a prefix of the parameters is captured
+                continue
             nm = args[0].id
             # the name means the same object at every call: a parameter of F that is never re-bound, or a local bound once at F's top level
             same = (nm in f_params and f_names_stores.get(nm, 0) == 0) or (nm not in f_params and f_names_stores.get(nm, 0) == 1 and any(
                 isinstance(st, (ast.Assign, ast.AnnAssign)) and any(isinstance(t, ast.Name) and t.id == nm for t in (st.targets if isinstance(st, ast.Assign) else [st.target])) for st in F.body))
-            # inside a nested function of F the name must still be F's (not a parameter / local of the nested function)
             if not same or q in h_stores or (nm != q and nm in (h_locals | set(params))):
-                break
-            # calls from a nested function of F: the name must not be shadowed there
+                continue
             shadowed = False
             for c in calls_:
                 x = c
@@ -219,13 +583,17 @@ def _helpers_to_closures(tree: ast.Module, trees: Dict[str, ast.Module]) -> bool
                     if x is F:
                         break
             if shadowed:
-                break
+                continue
             captured[q] = nm
-        if not captured or list(captured) != params[:len(captured)]:
+        if not captured:
             continue
-        k = len(captured)
-        # defaults belong to the trailing parameters: still aligned after dropping a prefix (defaults are right-aligned)
-        if len(h.args.defaults) > len(params) - k:
+        idxs = sorted(params.index(q) for q in captured)
+        # defaults: right-aligned to the parameters; after removal the parameters with defaults must still be a suffix
+        ndef = len(h.args.defaults)
+        defaults_of = {params[len(params) - ndef + j]: h.args.defaults[j] for j in range(ndef)}
+        remaining = [q for q in params if q not in captured]
+        flags = [q in defaults_of for q in remaining]
+        if any(flags[j] and not flags[j + 1] for j in range(len(flags) - 1)):
             continue
         # where to put it: before the first top-level statement of F that mentions the helper, after the captured locals are bound
         first_use = next((i for i, st in enumerate(F.body) if any(isinstance(n, ast.Name) and n.id == name for n in ast.walk(st))), None)
@@ -245,15 +613,15 @@ def _helpers_to_closures(tree: ast.Module, trees: Dict[str, ast.Module]) -> bool
         if name in f_params or f_names_stores.get(name, 0):
             continue
         nh = copy.deepcopy(h)
-        nh.args.args = nh.args.args[k:]
+        nh.args.args = [a for a in nh.args.args if a.arg not in captured]
+        nh.args.defaults = [copy.deepcopy(defaults_of[q]) for q in remaining if q in defaults_of]
         ren = {q: nm for q, nm in captured.items() if q != nm}
         if ren:
             for n in ast.walk(nh):
                 if isinstance(n, ast.Name) and n.id in ren:
                     n.id = ren[n.id]
         for c in calls_:
-            npos = max(0, len(c.args) - k)
-            c.args = c.args[k:] if len(c.args) >= k else []
+            c.args = [a for i, a in enumerate(c.args) if i not in idxs]
             c.keywords = [kw for kw in c.keywords if kw.arg not in captured]
         F.body.insert(first_use, nh)
         tree.body.remove(h)
@@ -488,6 +856,130 @@ def _strip_casts(tree: ast.Module) -> None:
     T().visit(tree)
 
 
+def _fold_sentinels(tree: ast.Module) -> None:
+    """With S a private module-level `object()` sentinel: `S is S` is True; `x is S` is False when x is a loop variable or a parameter that is
+    never assigned (it holds an element / an argument, and nobody outside the module has S).  Boolean operators with a constant operand are
+    simplified accordingly."""
+    sent = set()
+    for st in tree.body:
+        if isinstance(st, ast.Assign) and len(st.targets) == 1 and isinstance(st.targets[0], ast.Name) and st.targets[0].id.startswith("_") and isinstance(st.value, ast.Call) \
+                and ast.unparse(st.value) == "object()":
+            sent.add(st.targets[0].id)
+    if not sent:
+        return
+    for fn in [n for n in ast.walk(tree) if isinstance(n, ast.FunctionDef)]:
+        assigned = set()
+        loopvars = set()
+        for n in _own_nodes(fn):
+            if isinstance(n, (ast.For, ast.comprehension)):
+                loopvars |= {x.id for x in ast.walk(n.target) if isinstance(x, ast.Name)}
+            elif isinstance(n, (ast.Assign, ast.AnnAssign, ast.AugAssign, ast.NamedExpr)):
+                tg = n.targets if isinstance(n, ast.Assign) else [n.target]
+                for t in tg:
+                    assigned |= {x.id for x in ast.walk(t) if isinstance(x, ast.Name)}
+        elements = (loopvars | set(_params_of(fn))) - assigned
+        # a parameter may receive the sentinel from a caller inside the module: only parameters of public functions / loop variables are safe
+        if fn.name.startswith("_"):
+            elements -= set(_params_of(fn))
+
+        class F(ast.NodeTransformer):
+            def visit_FunctionDef(self, node):
+                return node if node is not fn else self.generic_visit(node)
+
+            def visit_Compare(self, node: ast.Compare):
+                self.generic_visit(node)
+                if len(node.ops) == 1 and isinstance(node.ops[0], (ast.Is, ast.IsNot)) and isinstance(node.left, ast.Name) and isinstance(node.comparators[0], ast.Name):
+                    a, b = node.left.id, node.comparators[0].id
+                    pos = isinstance(node.ops[0], ast.Is)
+                    if a in sent and a == b:
+                        return ast.copy_location(ast.Constant(value=pos), node)
+                    if (a in sent and b in elements) or (b in sent and a in elements):
+                        return ast.copy_location(ast.Constant(value=not pos), node)
+                return node
+
+            def visit_BoolOp(self, node: ast.BoolOp):
+                self.generic_visit(node)
+                is_or = isinstance(node.op, ast.Or)
+                vals = []
+                for v in node.values:
+                    if isinstance(v, ast.Constant) and isinstance(v.value, bool):
+                        if v.value == is_or:
+                            # True or ... / False and ...: decided here (the operands before it were evaluated and had no say)
+                            if not vals:
+                                return ast.copy_location(ast.Constant(value=is_or), node)
+                            vals.append(v)
+                            break
+                        continue  # neutral operand
+                    vals.append(v)
+                if not vals:
+                    return ast.copy_location(ast.Constant(value=not is_or), node)
+                if len(vals) == 1:
+                    return vals[0]
+                node.values = vals
+                return node
+
+        F().visit(fn)
+
+
+def _chain_loops(tree: ast.Module) -> None:
+    """for x in chain.from_iterable(ROWS): BODY   ==>   for _row in ROWS: for x in _row: BODY        (no break in BODY, no else)
+    for x in chain(A, B): BODY                   ==>   for x in A: BODY ; for x in B: BODY           is NOT done (BODY would be duplicated)."""
+    k = [0]
+    for holder in ast.walk(tree):
+        for fld in ("body", "orelse", "finalbody"):
+            body = getattr(holder, fld, None)
+            if not (isinstance(body, list) and body and isinstance(body[0], ast.stmt)):
+                continue
+            for i, st in enumerate(body):
+                if not (isinstance(st, ast.For) and not st.orelse and isinstance(st.iter, ast.Call) and len(st.iter.args) == 1 and not st.iter.keywords
+                        and ast.unparse(st.iter.func) in ("chain.from_iterable", "itertools.chain.from_iterable")):
+                    continue
+                if _user_breaks(st.body):
+                    continue
+                k[0] += 1
+                row = f"_row__chain{k[0]}"
+                inner = ast.For(target=st.target, iter=ast.Name(id=row, ctx=ast.Load()), body=st.body, orelse=[], type_comment=None)
+                outer = ast.For(target=ast.Name(id=row, ctx=ast.Store()), iter=st.iter.args[0], body=[inner], orelse=[], type_comment=None)
+                ast.copy_location(inner, st)
+                ast.copy_location(outer, st)
+                ast.fix_missing_locations(outer)
+                outer.lineno = getattr(st, "lineno", 0) % 100000 + 100000 * (500 + k[0])  # loops are told apart by their line: a pseudo line for the synthetic one
+                body[i] = outer
+
+
+def _try_keyerror(tree: ast.Module) -> None:
+    """try: return M[K] / except KeyError: pass      ==>   if K in M: return M[K]
+    try: x = M[K] / except KeyError: H...          ==>   if K in M: x = M[K] / else: H...
+    (M and K plain names / attribute chains, one handler without a name, no else / finally): the lookup that may fail becomes the membership
+    test it stands for (for the plain dict / OrderedDict mappings of this package)."""
+    def plain(e: ast.AST) -> bool:
+        while isinstance(e, ast.Attribute):
+            e = e.value
+        return isinstance(e, (ast.Name, ast.Constant))
+
+    for holder in ast.walk(tree):
+        for fld in ("body", "orelse", "finalbody"):
+            body = getattr(holder, fld, None)
+            if not (isinstance(body, list) and body and isinstance(body[0], ast.stmt)):
+                continue
+            for i, st in enumerate(body):
+                if not (isinstance(st, ast.Try) and len(st.body) == 1 and len(st.handlers) == 1 and not st.orelse and not st.finalbody and st.handlers[0].name is None
+                        and isinstance(st.handlers[0].type, ast.Name) and st.handlers[0].type.id == "KeyError"):
+                    continue
+                b = st.body[0]
+                sub = b.value if isinstance(b, (ast.Return, ast.Assign)) else None
+                if not (isinstance(sub, ast.Subscript) and plain(sub.value) and plain(sub.slice) and isinstance(sub.ctx, ast.Load)):
+                    continue
+                if isinstance(b, ast.Assign) and not (len(b.targets) == 1 and isinstance(b.targets[0], ast.Name)):
+                    continue
+                test = ast.Compare(left=copy.deepcopy(sub.slice), ops=[ast.In()], comparators=[copy.deepcopy(sub.value)])
+                hbody = [x for x in st.handlers[0].body if not isinstance(x, ast.Pass)]
+                new = ast.If(test=test, body=[b], orelse=hbody)
+                ast.copy_location(new, st)
+                ast.fix_missing_locations(new)
+                body[i] = new
+
+
 def _next_sentinel(tree: ast.Module) -> None:
     """try: X = next(IT) / except StopIteration: H   ==>   X = next(IT, __EXHAUSTED__) ; if X is __EXHAUSTED__: H
     (one statement in the try body, one handler without a name, no else / finally): the exhausted stream becomes an ordinary branch."""
@@ -566,6 +1058,85 @@ def _while_true(tree: ast.Module) -> None:
                 else:
                     out.append(st)
             setattr(holder, fld, out)
+
+
+def _loop_built_lists(tree: ast.Module) -> None:
+    """x = [] ; y = [] ; for T in SEQ: t = E0 ; x.append(E1) ; y.append(E2)      ==>      x = [E1' for T in SEQ] ; y = [E2' for T in SEQ]
+    (SEQ a plain name / attribute chain, the temporaries and elements free of calls, each list appended exactly once per iteration and used
+    nowhere else before the loop): the loop is the comprehension(s) it spells out."""
+    def call_free(e: ast.AST) -> bool:
+        return not any(isinstance(n, (ast.Call, ast.Yield, ast.YieldFrom, ast.Await, ast.NamedExpr, ast.Lambda)) for n in ast.walk(e))
+
+    for fn in [n for n in ast.walk(tree) if isinstance(n, ast.FunctionDef)]:
+        for holder in ast.walk(fn):
+            for fld in ("body", "orelse", "finalbody"):
+                body = getattr(holder, fld, None)
+                if not (isinstance(body, list) and body and isinstance(body[0], ast.stmt)):
+                    continue
+                for li, lp in enumerate(body):
+                    if not (isinstance(lp, ast.For) and not lp.orelse and isinstance(lp.target, (ast.Name, ast.Tuple))):
+                        continue
+                    it = lp.iter
+                    x_ = it
+                    while isinstance(x_, ast.Attribute):
+                        x_ = x_.value
+                    if not isinstance(x_, ast.Name):
+                        continue
+                    temps: Dict[str, ast.expr] = {}
+                    appends: List[Tuple[str, ast.expr]] = []
+                    ok = True
+                    for st in lp.body:
+                        if isinstance(st, (ast.Assign, ast.AnnAssign)) and (len(st.targets) == 1 if isinstance(st, ast.Assign) else True):
+                            tg = st.targets[0] if isinstance(st, ast.Assign) else st.target
+                            if isinstance(tg, ast.Name) and st.value is not None and call_free(st.value) and not appends:
+                                temps[tg.id] = _Subst(dict(temps), {}).visit(copy.deepcopy(st.value))
+                                continue
+                            ok = False
+                            break
+                        if isinstance(st, ast.Expr) and isinstance(st.value, ast.Call) and isinstance(st.value.func, ast.Attribute) and st.value.func.attr == "append" \
+                                and isinstance(st.value.func.value, ast.Name) and len(st.value.args) == 1 and not st.value.keywords and call_free(st.value.args[0]):
+                            appends.append((st.value.func.value.id, _Subst(dict(temps), {}).visit(copy.deepcopy(st.value.args[0]))))
+                            continue
+                        ok = False
+                        break
+                    names = [n for n, _ in appends]
+                    if not ok or not appends or len(set(names)) != len(names):
+                        continue
+                    # each list: bound to [] by a statement of this block before the loop, not touched in between, temporaries unused after the loop
+                    inits = {}
+                    for nm in names:
+                        idx = None
+                        for j in range(li - 1, -1, -1):
+                            st = body[j]
+                            tg = st.targets[0] if isinstance(st, ast.Assign) and len(st.targets) == 1 else (st.target if isinstance(st, ast.AnnAssign) else None)
+                            if isinstance(tg, ast.Name) and tg.id == nm:
+                                if isinstance(st.value, ast.List) and not st.value.elts:
+                                    idx = j
+                                break
+                            if any(isinstance(n, ast.Name) and n.id == nm for n in ast.walk(st)):
+                                break
+                        if idx is None:
+                            break
+                        inits[nm] = idx
+                    if len(inits) != len(names):
+                        continue
+                    loop_names = {n.id for n in ast.walk(lp.target) if isinstance(n, ast.Name)} | set(temps)
+                    after = body[li + 1:]
+                    if any(isinstance(n, ast.Name) and n.id in loop_names and isinstance(n.ctx, ast.Load) for st in after for n in ast.walk(st)):
+                        continue
+                    if sum(1 for n in ast.walk(fn) if isinstance(n, ast.Name) and n.id in names and isinstance(n.ctx, (ast.Store, ast.Del))) != len(names):
+                        continue
+                    new_stmts = []
+                    for nm, elt in appends:
+                        comp = ast.ListComp(elt=elt, generators=[ast.comprehension(target=copy.deepcopy(lp.target), iter=copy.deepcopy(it), ifs=[], is_async=0)])
+                        asg = ast.Assign(targets=[ast.Name(id=nm, ctx=ast.Store())], value=comp)
+                        ast.copy_location(asg, lp)
+                        ast.fix_missing_locations(asg)
+                        new_stmts.append(asg)
+                    for nm, idx in inits.items():
+                        body[idx] = ast.copy_location(ast.Pass(), body[idx])
+                    body[li:li + 1] = new_stmts
+                    break
 
 
 def _clamp_idiom(tree: ast.Module) -> None:
@@ -767,6 +1338,12 @@ def _scalarize_records(tree: ast.Module) -> None:
 def _pure_literal(e: ast.AST) -> bool:
     if isinstance(e, ast.Constant):
         return True
+    if isinstance(e, ast.Attribute):
+        # a dotted name such as EventTag.STOP (an enumeration member, a class attribute): reading it again gives the same object
+        x = e
+        while isinstance(x, ast.Attribute):
+            x = x.value
+        return isinstance(x, ast.Name) and x.id[:1].isupper()
     if isinstance(e, (ast.Tuple, ast.List, ast.Set)):
         return all(_pure_literal(x) for x in e.elts)
     if isinstance(e, ast.Dict):
@@ -1183,7 +1760,9 @@ class _RetToBreak(ast.NodeTransformer):
         self.sink = sink
 
     def visit_Return(self, n: ast.Return):
-        return list(self.sink(n.value)) + [ast.copy_location(ast.Break(), n)]
+        b = ast.copy_location(ast.Break(), n)
+        b._once_exit = True  # leaves the synthetic Once block, not a loop of the program
+        return list(self.sink(n.value)) + [b]
 
     def visit_FunctionDef(self, n):
         return n
@@ -1324,7 +1903,10 @@ def _deliver_returns(stmts: List[ast.stmt], sink, in_loop: bool) -> Optional[Lis
     for i, st in enumerate(stmts):
         if isinstance(st, ast.Return):
             out.extend(sink(st.value))
-            out.append(ast.copy_location(ast.Break(), st))
+            b_ = ast.copy_location(ast.Break(), st)
+            if not in_loop:
+                b_._once_exit = True
+            out.append(b_)
             return out  # anything after a return is dead
         if isinstance(st, (ast.FunctionDef, ast.AsyncFunctionDef, ast.ClassDef)) or not _has_return(st):
             out.append(st)
@@ -1740,8 +2322,20 @@ def _inline_helpers(mod: str, tree: ast.Module, all_helpers, trees, pkgs: Set[st
                 # self[h(x)] = v : the value and the container are plain names, so the key expression is the first call evaluated
                 holder, fld = st.targets[0], "slice"
             e = getattr(holder, fld)
-            first = next(iter(_eval_order(e)), None)
-            if first is None or first is _BLOCK:
+            # the first helper call the statement evaluates: everything that completes before it must be part of its own arguments
+            # (those calls move along with it)
+            first = None
+            earlier: List[ast.AST] = []
+            for it_ in _eval_order(e):
+                if it_ is _BLOCK:
+                    break
+                if stmt_helper_call(it_)[0] is not None:
+                    inside = {id(n) for n in ast.walk(it_)}
+                    if all(id(x) in inside for x in earlier):
+                        first = it_
+                    break
+                earlier.append(it_)
+            if first is None:
                 return [st]
             h, _ = stmt_helper_call(first)
             if h is None or h.is_gen:
@@ -1969,6 +2563,8 @@ def _inline_helpers(mod: str, tree: ast.Module, all_helpers, trees, pkgs: Set[st
                         continue
                 if call is not None:
                     h, recv = stmt_helper_call(call)
+                    if h is not None and mode == "yieldfrom" and not h.is_gen:
+                        mode = "yieldfrom_value"  # yield from f(x), f an ordinary function: every `return E` of f is `yield from E`
                     if h is not None and (h.is_gen == (mode == "yieldfrom")):
                         b = h.bind(_bindcall.get(id(call), call), recv)
                         if b is not None:
@@ -1993,6 +2589,11 @@ def _inline_helpers(mod: str, tree: ast.Module, all_helpers, trees, pkgs: Set[st
                                     mapping.pop(p_, None)
 
                             def sink(value, _st=st, _mode=mode):
+                                if _mode == "yieldfrom_value":
+                                    if value is None or (isinstance(value, (ast.Tuple, ast.List)) and not value.elts):
+                                        return []  # nothing to yield from None would be an error in the original too; () yields nothing
+                                    y = ast.Expr(value=ast.YieldFrom(value=value))
+                                    return [ast.copy_location(y, _st)]
                                 if _mode in ("discard", "yieldfrom"):
                                     return [] if value is None or isinstance(value, ast.Constant) else [ast.copy_location(ast.Expr(value=value), _st)]
                                 v = value if value is not None else ast.Constant(value=None)
